@@ -1,6 +1,7 @@
 #!/usr/bin/env python3
 """usage: mut.py <file> <old> <new> -- <prop>...   : replace first occurrence in /repo/<file>, build, run checks, revert."""
-import sys, subprocess
+import sys, subprocess, fcntl
+lk = open("/tmp/repo.lock", "w"); fcntl.flock(lk, fcntl.LOCK_EX)
 args = sys.argv[1:]
 i = args.index('--')
 f, old, new = args[0], args[1], args[2]
